@@ -680,6 +680,15 @@ class P:
                     self.eat()        # message and its arguments
                 self.eat(')')
                 return ('assert', c)
+            if t == 'ready!':
+                self.eat(); self.eat('(')
+                c = self.expr()
+                self.eat(')')
+                return ('ready', c)
+            if t in ('panic!', 'unreachable!'):
+                self.eat()
+                self.skip_balanced('(', ')')
+                return ('panic',)
             if t.endswith('!'):
                 raise Unsupported(f"macro {t}")
             segs = [self.eat()]
@@ -748,6 +757,8 @@ def lean_ty(ty, structs):
         return ty
     if ty.split('<')[0] in structs:
         return ty.split('<')[0]
+    if ty == 'State':
+        return 'State'
     m = re.fullmatch(r"Arc<Mutex<(\w+)(<.*>)?>>", ty)
     if m:
         return 'SHARED:' + m.group(1)
@@ -969,6 +980,11 @@ class Module:
     def E(self, e, cx):
         e = self.resolve(e, cx)
         k = e[0]
+        if k == 'call' and e[1] == ['drop_value__']:
+            # the end of the life of a value a child produced and nobody took
+            pv, tv = self.E(e[2][0], cx)
+            cx.uses_env = True
+            return pv + [f"let env__ := env__.emit (.valDropped {atom(tv)})"], '()'
         if k == 'num':
             return [], str(e[1])
         if k == 'unit':
@@ -1029,6 +1045,16 @@ class Module:
                         pa = pa + [f"let {v} ← (if {ta} then pure true else (do {inner}))"]
                     return pa, v
                 return pa, f"({ta} {op} {tb})"
+            if op in ('==', '!=', '<', '>', '<=', '>=') and (a[0] == 'num' or b[0] == 'num'):
+                # one canonical form for the ways of writing "is zero" / "is not zero" of an unsigned number
+                # (`x != 0`, `x > 0`, `0 < x`, `x >= 1`, `1 <= x`;  `x == 0`, `x < 1`, `x <= 0`, `1 > x`, `0 >= x`)
+                x, n, o = (a, b[1], op) if b[0] == 'num' else (b, a[1], {'<': '>', '>': '<', '<=': '>=', '>=': '<='}.get(op, op))
+                tx = ta if b[0] == 'num' else tb
+                if x[0] != 'num' and (self.ty(x, cx) in ('Nat', None)):
+                    if (o, n) in (('!=', 0), ('>', 0), ('>=', 1)):
+                        return pa + pb, f"({tx} != 0)"
+                    if (o, n) in (('==', 0), ('<', 1), ('<=', 0)):
+                        return pa + pb, f"({tx} == 0)"
             if op in ('==', '!=', '<', '>', '<=', '>='):
                 lop = {'==': '==', '!=': '!=', '<': '<', '>': '>', '<=': '≤', '>=': '≥'}[op]
                 if op in ('==', '!='):
@@ -1230,6 +1256,9 @@ class Module:
                 p, t = self.E(a, cx)
                 pre += p; ts.append(t)
             return pre, "(" + ", ".join(ts) + ")"
+        if k == 'panic':
+            v = cx.fresh()
+            return [f"let {v} ← (none : Option Unit)"], '()'
         if k == 'assert':
             pc, tc = self.E(e[1], cx)
             v = cx.fresh()
@@ -1670,6 +1699,35 @@ class Module:
             return self.for_stmt(s, rest, cx, ind)
         if k == 'loop':
             return self.loop_stmt(s, rest, cx, ind)
+        if k == 'let' and s[4] is not None and s[4][0] == 'ready':
+            # `let x = ready!(e); rest`  ==  `match e { Pending => return Pending, Ready(x) => { rest } }`
+            m = ('match', s[4][1], [(('pctor', ['Poll', 'Pending'], None), [('return', ('path', ['Poll', 'Pending']))]),
+                                     (('pctor', ['Poll', 'Ready'], s[1]), [])])
+            return self.S([('expr', m)] + rest, cx, ind)
+        if k in ('expr', 'tail') and s[1][0] == 'ready' and (k == 'expr' or rest):
+            # `ready!(e);`: the value is dropped at the end of the statement
+            tmp = f"gone_{cx.fresh()}"
+            m = ('match', s[1][1], [(('pctor', ['Poll', 'Pending'], None), [('return', ('path', ['Poll', 'Pending']))]),
+                                     (('pctor', ['Poll', 'Ready'], tmp), [('expr', ('call', ['drop_value__'], [('path', [tmp])]))])])
+            return self.S([('expr', m)] + rest, cx, ind)
+        if k in ('expr', 'tail') and s[1][0] == 'match' and self.is_child_poll(s[1][1], cx) and \
+                any(a[0] == ('pctor', ['Poll', 'Ready'], '_') and len(a) == 2 for a in s[1][2]):
+            # `match child.poll(cx) { Poll::Ready(_) => { body } … }`: the child's output stays in the scrutinee's
+            # temporary, which lives to the end of the `match` — it is dropped after the arm's body has run
+            arms = []
+            for a in s[1][2]:
+                if a[0] == ('pctor', ['Poll', 'Ready'], '_') and len(a) == 2:
+                    tmp, res = f"gone_{cx.fresh()}", f"res_{cx.fresh()}"
+                    body = list(a[1])
+                    if body and body[-1][0] == 'tail':
+                        body = body[:-1] + [('let', res, False, None, body[-1][1]),
+                                            ('expr', ('call', ['drop_value__'], [('path', [tmp])])), ('tail', ('path', [res]))]
+                    else:
+                        body = body + [('expr', ('call', ['drop_value__'], [('path', [tmp])]))]
+                    arms.append((('pctor', ['Poll', 'Ready'], tmp), body))
+                else:
+                    arms.append(a)
+            return self.S([(k, ('match', s[1][1], arms))] + rest, cx, ind)
         if k == 'let':
             name, e = s[1], s[4]
             r = self.resolve(e, cx)
@@ -1772,6 +1830,13 @@ class Module:
         else:
             lines, _ = self.E(e, cx)
         return [pad + l for l in lines] + self.S(rest, cx, ind)
+
+    def is_child_poll(self, e, cx):
+        try:
+            e = self.resolve(e, cx)
+            return e[0] == 'mcall' and e[2] in ('poll', 'poll_next') and self.ty(e[1], cx) == 'Member'
+        except Unsupported:
+            return False
 
     def closure_cond(self, clo, pat):
         """the body of `|(a, _b)| cond` with the closure's names replaced, position by position, by the loop pattern's"""
@@ -1940,6 +2005,9 @@ class Module:
             raise Unsupported("nested loops")
         nats = [f for f, t in self.structs.get(cx.struct, []) if t == 'Nat']
         fuel = " + ".join(f"self.{f}" for f in nats) + " + 1" if nats else "1"
+        nvar = sum(len(self.enums[t]) for f, t in self.structs.get(cx.struct, []) if t in self.enums)
+        if nvar:
+            fuel = f"{nvar} + {fuel}"       # a state machine over an enum: one turn of the loop per state
         carry = ['self'] + (['env__'] if cx.has_env else []) + [m for m in cx.muts if m in cx.types]
         tup = "(" + ", ".join(carry) + ")" if len(carry) > 1 else carry[0]
         saved = (dict(cx.types), dict(cx.alias), dict(cx.placealias), list(cx.muts), cx.after_block, cx.ret)
@@ -2133,13 +2201,19 @@ class Module:
         _, name, consts, fields = it
         fl = []
         for f, ty in fields:
+            if name == 'WaitUntil' and ty in ('F', 'S', 'D'):
+                # a child held in a field of its own: identified by a number, like the children of the containers
+                fl.append((f, 'Member'))
+                self.member_kind = getattr(self, 'member_kind', {})
+                self.member_kind[(name, f)] = ty
+                continue
             fl.append((f, lean_ty(ty, self.structs)))
         self.structs[name] = fl
         self.out.append(f"structure {name} where")
         for f, t in fl:
             if t.startswith('SHARED:'):
                 continue          # the shared state is threaded through the functions explicitly
-            self.out.append(f"  {f} : {t}")
+            self.out.append(f"  {f} : {'Nat' if t == 'Member' else t}")
         self.out.append("")
 
     def add_enum(self, it):
@@ -2150,6 +2224,12 @@ class Module:
             self.out.append(f"  | {lean_variant(v)}")
         self.out.append("  deriving DecidableEq, Repr")
         self.out.append("")
+        if name == 'State':
+            # the position of a variant in the declaration (so that proofs need not name the variants)
+            self.out.append(f"def {name}.toNat : {name} → Nat")
+            for i, v in enumerate(vs):
+                self.out.append(f"  | .{lean_variant(v)} => {i}")
+            self.out.append("")
 
     def add_impl(self, it, only=None):
         _, sname, consts, trait, fns = it
@@ -2209,7 +2289,7 @@ class Module:
         # does it poll children?  then the environment (scripts, handed-out wakers, event trace) is threaded through
         cx.has_env = (bool(re.search(r'"mcall", .{0,400}?"poll(_next)?"', json.dumps(body))) or
                       (name == 'drop' and selfkind == 'mut')) and \
-            any(t in ('WakerVec', 'WakerArray', 'Rs.Kids', 'Rs.Slab') for _, t in self.structs.get(sname, []))
+            any(t in ('WakerVec', 'WakerArray', 'Rs.Kids', 'Rs.Slab', 'Member') for _, t in self.structs.get(sname, []))
         if cx.has_env:
             binders += " (env__ : World)"
         lines = self.S(body, cx, 1)
@@ -2306,12 +2386,14 @@ UNITS = [
     ('ChainA', [('src/stream/chain/array.rs', ['Chain'])]),
     ('RaceA',  [('src/future/race/array.rs', ['Race'])]),
     ('RaceOkA', [('src/future/race_ok/array/mod.rs', ['RaceOk'])]),
+    ('WaitF', [('src/future/wait_until.rs', ['State', 'WaitUntil'])]),
+    ('WaitS', [('src/stream/wait_until.rs', ['State', 'WaitUntil'])]),
 ]
 SKIP_FNS = {('InlineWakerArray', 'new'), ('InlineWakerVec', 'new')}
 
 GROUPS = {'Std': ['StdArr', 'StdVec'], 'Dir': ['DirArr', 'DirVec'], 'Idx': ['Idx'], 'PS': ['PS'], 'Grp': ['GrpF', 'GrpS'],
           'Fam': ['MergeV', 'RaceV'], 'Fam2': ['JoinV'], 'Fam3': ['TryJoinV'], 'Fam4': ['ZipV'], 'Fam5': ['ChainV'],
-          'Arr1': ['JoinA'], 'Arr2': ['TryJoinA'], 'Arr3': ['MergeA'], 'Arr4': ['ZipA'], 'Arr5': ['ChainA'], 'Arr6': ['RaceA'], 'Arr7': ['RaceOkA']}
+          'Arr1': ['JoinA'], 'Arr2': ['TryJoinA'], 'Arr3': ['MergeA'], 'Arr4': ['ZipA'], 'Arr5': ['ChainA'], 'Arr6': ['RaceA'], 'Arr7': ['RaceOkA'], 'Wait': ['WaitF', 'WaitS']}
 GROUP_IMPORTS = {'Std': ['Fc.Kernel'], 'Grp': ['FcGen.KSrcStd', 'FcGen.KSrcPS', 'Fc.RustEnv'],
                  'Fam': ['FcGen.KSrcStd', 'FcGen.KSrcPS', 'FcGen.KSrcIdx', 'Fc.RustEnv'],
                  'Fam2': ['FcGen.KSrcStd', 'FcGen.KSrcPS', 'Fc.RustEnv'],
@@ -2321,7 +2403,7 @@ GROUP_IMPORTS = {'Std': ['Fc.Kernel'], 'Grp': ['FcGen.KSrcStd', 'FcGen.KSrcPS', 
                  'Arr1': ['FcGen.KSrcStd', 'FcGen.KSrcPS', 'Fc.RustEnv'], 'Arr2': ['FcGen.KSrcStd', 'FcGen.KSrcPS', 'Fc.RustEnv'],
                  'Arr3': ['FcGen.KSrcStd', 'FcGen.KSrcPS', 'FcGen.KSrcIdx', 'Fc.RustEnv'], 'Arr4': ['FcGen.KSrcStd', 'FcGen.KSrcPS', 'Fc.RustEnv'],
                  'Arr5': ['FcGen.KSrcStd', 'FcGen.KSrcPS', 'Fc.RustEnv'], 'Arr6': ['FcGen.KSrcStd', 'FcGen.KSrcPS', 'FcGen.KSrcIdx', 'Fc.RustEnv'],
-                 'Arr7': ['FcGen.KSrcStd', 'FcGen.KSrcPS', 'Fc.RustEnv']}
+                 'Arr7': ['FcGen.KSrcStd', 'FcGen.KSrcPS', 'Fc.RustEnv'], 'Wait': ['Fc.RustEnv']}
 GROUP_DEPS = {'Grp': ['Std', 'PS'], 'Fam': ['Std', 'PS', 'Idx'], 'GrpPoll': ['Grp'], 'RaceV': ['Fam'], 'MergeV': ['Fam'], 'JoinV': ['Fam2'], 'TryJoinV': ['Fam3'], 'ChainV': ['Fam5', 'Fam4'], 'ZipV': ['Fam4', 'Fam5'], 'Fam2': ['Std', 'PS'], 'Fam3': ['Std', 'PS'], 'Fam4': ['Std', 'PS'], 'Fam5': ['Std', 'PS'],
               'Arr1': ['Std', 'PS'], 'Arr2': ['Std', 'PS'], 'Arr3': ['Std', 'PS', 'Idx'], 'Arr4': ['Std', 'PS'], 'Arr5': ['Std', 'PS'],
               'Arr6': ['Std', 'PS', 'Idx'], 'Arr7': ['Std', 'PS'],
@@ -2401,6 +2483,7 @@ REQUIRED = {
     'Arr3': ['MergeA.Merge.poll_next', 'MergeA.Merge.new'], 'Arr4': ['ZipA.Zip.poll_next', 'ZipA.Zip.drop', 'ZipA.Zip.new'],
     'Arr5': ['ChainA.Chain.poll_next'], 'Arr6': ['RaceA.Race.poll'],
     'Arr7': ['RaceOkA.RaceOk.poll', 'RaceOkA.RaceOk.drop'],
+    'Wait': ['WaitF.WaitUntil.poll', 'WaitS.WaitUntil.poll_next'],
     'Grp': ['GrpF.FutureGroup.' + f for f in ('with_capacity', 'len', 'capacity', 'is_empty', 'remove', 'contains_key', 'reserve', 'insert')]
            + ['GrpS.StreamGroup.' + f for f in ('with_capacity', 'len', 'capacity', 'is_empty', 'remove', 'contains_key', 'reserve', 'insert')],
 }
@@ -2426,7 +2509,10 @@ def translate_unit(repo, ns, files, report, ext=None):
             report['failed'].append((f"{ns}:{path}", str(ex)))
             continue
         parsed_all += parsed
-        for it in parsed:
+        # enums first when a struct declared before them has a field of their type
+        early = [it for it in parsed if it[0] == 'enum' and any(
+            s_[0] == 'struct' and any(ty == it[1] for _, ty in s_[3]) for s_ in parsed[:parsed.index(it)])]
+        for it in early + [x for x in parsed if x not in early]:
             try:
                 if it[0] == 'struct':
                     if only_types is None or it[1] in only_types:
@@ -2461,7 +2547,7 @@ def translate_unit(repo, ns, files, report, ext=None):
             mod.out.append(f"def {sname}.extraFields : List String := {json.dumps(r['extra'] if r else [])}")
             mod.out.append("")
     for sname in list(mod.structs):
-        if sname in ('FutureGroup', 'StreamGroup', 'Merge', 'Race', 'Join', 'TryJoin', 'Zip', 'Chain', 'RaceOk') and sname not in getattr(mod, 'ext_names', ()):
+        if sname in ('FutureGroup', 'StreamGroup', 'Merge', 'Race', 'Join', 'TryJoin', 'Zip', 'Chain', 'RaceOk', 'WaitUntil') and sname not in getattr(mod, 'ext_names', ()):
             tags = {'Rs.Slab': 'roleSlab', 'WakerVec': 'roleWakers', 'Rs.PVec PS.PollState': 'roleStates',
                     'Rs.BTree': 'roleKeys', 'Nat': 'roleCapacity', 'List Nat': 'roleQueue'}
             if sname in ('Merge', 'Race', 'Join', 'TryJoin', 'Zip', 'Chain', 'RaceOk'):
@@ -2475,6 +2561,16 @@ def translate_unit(repo, ns, files, report, ext=None):
                     mod.out.append(f"abbrev {sname}.{tags[t]} (g : {sname}) : {t} := g.{f}")
                     roles[tags[t]] = f
             nat_fields = [f for f, t in fl if t == 'Nat']
+            if sname == 'WaitUntil':
+                for f, t in fl:
+                    kind = getattr(mod, 'member_kind', {}).get((sname, f))
+                    if kind is not None:
+                        tag = 'roleDeadline' if kind == 'D' else 'roleInner'
+                        mod.out.append(f"abbrev {sname}.{tag} (g : {sname}) : Nat := g.{f}")
+                        roles[tag] = f
+                    elif t in mod.enums:
+                        mod.out.append(f"abbrev {sname}.roleState (g : {sname}) : {t} := g.{f}")
+                        roles['roleState'] = f
             if sname == 'Chain' and len(nat_fields) == 2:
                 # the counter that `poll_next` advances is the index of the current input, the other one the length
                 txt = json.dumps(parsed_all)
